@@ -62,6 +62,7 @@ static Verdict run(const Case &c) {
     int ifi = w.add_if(h.ifcfg());
     Mac own = h.ownmac();
     Shadow sh;
+    OtherIf oif;
     size_t pmax = h.mtu - 34;
     Bytes empty;
     Bytes cur_icon = h.icon_state ? h.icon : empty;
@@ -138,6 +139,7 @@ static Verdict run(const Case &c) {
                 if (icon_ok) icon_cands.push_back(cur_icon);      // until a Reset either the cached or the new bytes may be served
                 break;
             case K_ADVANCE: vp_set_now_ms(vp_now_ms() + (uint64_t)op.arg(0)); break;
+            case K_OTHERIF: oif.step(w, h, op); break;   // the other interface serves (and forgets) the same large properties on its own
             default: {
                 Built b = build_frame(h, op, sh);
                 if (!b.is_frame) break;
@@ -271,6 +273,7 @@ int main(int argc, char **argv) {
                 } else if (k <= 8) { o.kind = K_REASM; o.a = {*gx::pick({0x0E, 0x11, 0x13, 0x0E}), *hg::seq_gen()}; }
                 else if (k == 9) { o.kind = K_SETICON; o.blob = pattern((size_t)*gx::bnd({1, (int64_t)pmax, (int64_t)pmax + 1}, 1, 3000, 1, 1), (uint32_t)*gx::range<int>(0, 99999)); }
                 else if (k == 10) { o.kind = K_RESET; o.a = {0, *gx::pick({0, 0, 1}), 1}; }
+                else if (k == 11 && *gx::chance(60)) { o.kind = K_OTHERIF; o.a = {*gx::pick({0, 0, 4, 4, 6, 1, 2, 3}), 0, *gx::pick({1, 3, 0x0101})}; }
                 else { o.kind = K_DISCOVER; o.a = {0, *gx::pick({0, 1}), 1, 1, d.a[4], 0, -1}; }
                 return o;
             })));
